@@ -268,9 +268,11 @@ def transformPoly (vs : Poly) (m : Float × Float × Float × Float) : Poly :=
   let t := vs.map (fun v => (⟨m00 * v.x + m01 * v.y, m10 * v.x + m11 * v.y⟩ : V2))
   if t.length = 5 ∨ t.length = 3 then polyNew t else vs
 
-/-- `get_pentagon_vertices(resolution, quintant, anchor)` -/
-def getPentagonVertices (resolution : Int) (quintant : Nat) (anchor : Anchor) : Poly :=
-  let pc := pentagonConstants
+/-- the part of `get_pentagon_vertices` that happens in the unscaled lattice frame of the quintant: the seed
+pentagon, rotated/reflected/shifted according to the anchor's flips and `k`, then translated by `BASIS * offset`
+(split out so that `A5/Model/PentagonG.lean` can state its generic twin; `getPentagonVertices` unfolds to the
+same expression as before) -/
+def getPentagonLocalOf (pc : PentagonConstants) (anchor : Anchor) : Poly :=
   let (b00, b01, b10, b11) := pc.basis
   let ox := Float.ofInt anchor.offset.1
   let oy := Float.ofInt anchor.offset.2
@@ -285,7 +287,13 @@ def getPentagonVertices (resolution : Int) (quintant : Nat) (anchor : Anchor) : 
     else if anchor.flips.1 == Gen.YES then polyTranslate p ⟨-pc.w.x, -pc.w.y⟩
     else if anchor.flips.2 == Gen.YES then polyTranslate p pc.w
     else p
-  let p := polyTranslate p translation
+  polyTranslate p translation
+
+def getPentagonLocal (anchor : Anchor) : Poly := getPentagonLocalOf pentagonConstants anchor
+
+/-- `get_pentagon_vertices(resolution, quintant, anchor)` -/
+def getPentagonVertices (resolution : Int) (quintant : Nat) (anchor : Anchor) : Poly :=
+  let p := getPentagonLocal anchor
   let pow := if resolution ≥ 0 then Float.ofNat (2 ^ resolution.toNat) else 1.0 / Float.ofNat (2 ^ (-resolution).toNat)
   let p := polyScale p (1.0 / pow)
   transformPoly p (quintantRotation quintant)
